@@ -195,19 +195,19 @@ pub fn tier(name: &str) -> Tier {
         Tier {
             name: name.into(),
             corpus_configs: envnum("VERIF_C12_CORPUS_CONFIGS", 48),
-            n_comp: envnum("VERIF_C12_NCOMP", 1500),
-            comp_configs: envnum("VERIF_C12_COMP_CONFIGS", 24),
-            n_gen: envnum("VERIF_C12_NGEN", 6000),
-            gen_configs: envnum("VERIF_C12_GEN_CONFIGS", 24),
+            n_comp: envnum("VERIF_C12_NCOMP", 1000),
+            comp_configs: envnum("VERIF_C12_COMP_CONFIGS", 16),
+            n_gen: envnum("VERIF_C12_NGEN", 4000),
+            gen_configs: envnum("VERIF_C12_GEN_CONFIGS", 16),
         }
     } else {
         Tier {
             name: "quick".into(),
             corpus_configs: envnum("VERIF_C12_CORPUS_CONFIGS", 6),
-            n_comp: envnum("VERIF_C12_NCOMP", 150),
-            comp_configs: envnum("VERIF_C12_COMP_CONFIGS", 6),
-            n_gen: envnum("VERIF_C12_NGEN", 700),
-            gen_configs: envnum("VERIF_C12_GEN_CONFIGS", 6),
+            n_comp: envnum("VERIF_C12_NCOMP", 120),
+            comp_configs: envnum("VERIF_C12_COMP_CONFIGS", 5),
+            n_gen: envnum("VERIF_C12_NGEN", 400),
+            gen_configs: envnum("VERIF_C12_GEN_CONFIGS", 5),
         }
     }
 }
